@@ -20,6 +20,15 @@ func (b *sb) ev(op string, a int) *sb {
 	b.sc.evs = append(b.sc.evs, event{at: b.now, op: op, a: a})
 	return b
 }
+// callb: a reader's call with a Read buffer of n bytes; arr: a datagram with messages of these sizes
+func (b *sb) callb(i, n int) *sb {
+	b.sc.evs = append(b.sc.evs, event{at: b.now, op: "call", a: i, b: n})
+	return b
+}
+func (b *sb) arr(sizes ...int) *sb {
+	b.sc.evs = append(b.sc.evs, event{at: b.now, op: "arrive", a: len(sizes), sz: append([]int{}, sizes...)})
+	return b
+}
 func (b *sb) done() *schedule {
 	sort.SliceStable(b.sc.evs, func(i, j int) bool { return b.sc.evs[i].at < b.sc.evs[j].at })
 	return b.sc
@@ -50,6 +59,17 @@ func fixedSchedules() []*schedule {
 	// D5: two blocked readers, two messages in one datagram
 	out = append(out, newSB("fixed:D5-two-readers", "rr", 1, 0).ev("call", 0).ev("call", 1).wait(100).ev("arrive", 2).done())
 	out = append(out, newSB("fixed:D5-three-readers", "rrr", 1, 0).ev("call", 0).ev("call", 1).ev("call", 2).wait(100).ev("arrive", 3).done())
+	// partial reads: a buffer smaller than the message leaves the rest in bufptr, which is readable
+	// for the next reader and must be passed on by the chain wake (seeded change C13-2)
+	out = append(out, newSB("fixed:partial-two-readers", "rr", 1, 0).callb(0, 100).callb(1, 100).wait(100).arr(200).done())
+	out = append(out, newSB("fixed:partial-three-readers-1byte", "rrr", 1, 0).callb(0, 1).callb(1, 1).callb(2, 1).wait(100).arr(3).done())
+	out = append(out, newSB("fixed:partial-then-next-message", "rrr", 1, 0).callb(0, 4).callb(1, 8).callb(2, 64).wait(100).arr(8, 8).done())
+	out = append(out, newSB("fixed:partial-leftover-then-late-reader", "rr", 1, 0).callb(0, 3).wait(100).arr(8).wait(100).callb(1, 3).wait(100).callb(0, 64).wait(100).arr().done())
+	out = append(out, newSB("fixed:partial-after-close", "rr", 1, 0).arr(8).wait(100).ev("close", 0).callb(0, 5).callb(1, 5).wait(100).callb(0, 5).done())
+	// Accept: a deadline that was set and cleared again before the call is no deadline (seeded change C13-1)
+	out = append(out, newSB("fixed:accept-set-cleared-before", "a", 1, 0).ev("setld", 300).ev("setld", 0).ev("call", 0).wait(500).ev("conn", 0).done())
+	out = append(out, newSB("fixed:accept-cleared-later-call", "aa", 1, 0).ev("setld", 200).wait(100).ev("setld", 0).wait(200).ev("call", 0).ev("call", 1).wait(200).ev("conn", 0).done())
+	out = append(out, newSB("fixed:accept-never-set-cleared", "a", 1, 0).ev("setld", 0).ev("call", 0).wait(300).ev("conn", 0).done())
 	// D8: Accept reads its deadline once
 	out = append(out, newSB("fixed:D8-accept-none-set", "a", 1, 0).ev("call", 0).wait(100).ev("setld", 300).done())
 	out = append(out, newSB("fixed:D8-accept-set-later", "a", 1, 0).ev("setld", 300).ev("call", 0).wait(100).ev("setld", 700).done())
@@ -117,8 +137,77 @@ func wakeOp(k byte) string {
 	return "conn"
 }
 
+// genSchedule: a schedule of one of the families below; in 60 % of those with reader slots the
+// readers get buffers smaller than / equal to / larger than the messages (1 byte, half, exact,
+// larger) and the datagrams carry messages of mixed sizes.
 func genSchedule(g *hx.Rng) *schedule {
-	switch f := g.Intn(100); {
+	sc := genBase(g)
+	hasReader := false
+	for _, k := range sc.kinds {
+		if k == 'r' {
+			hasReader = true
+		}
+	}
+	if !hasReader || !g.Chance(60) {
+		return sc
+	}
+	m := []int{2, 8, 8, 100, 200}[g.Intn(5)]
+	bufs := []int{1, m / 2, m, m + 56}
+	if m > 8 {
+		bufs[0] = m / 4 // draining 200 bytes one by one would need 200 calls
+	}
+	sc.family += "+sizes"
+	for i := range sc.evs {
+		e := &sc.evs[i]
+		switch {
+		case e.op == "call" && e.a < len(sc.kinds) && sc.kinds[e.a] == 'r':
+			e.b = bufs[g.Intn(len(bufs))]
+		case e.op == "arrive":
+			e.sz = make([]int, e.a)
+			for j := range e.sz {
+				e.sz[j] = m
+				if g.Chance(25) {
+					e.sz[j] = 1 + g.Intn(m)
+				}
+			}
+		}
+	}
+	return sc
+}
+
+func genBase(g *hx.Rng) *schedule {
+	switch f := g.Intn(108); {
+	case f >= 100:
+		// partial reads: several readers with small buffers, re-calls to drain what is left over
+		m := []int{3, 8, 100}[g.Intn(3)]
+		b := newSB("partial-read", pickKinds(g, "r", 2, 3), 1, 0)
+		small := func() int { return []int{1, (m + 1) / 2, m - 1, m}[g.Intn(4)] }
+		if m > 8 {
+			small = func() int { return []int{m / 4, m / 2, m - 1, m}[g.Intn(4)] }
+		}
+		if g.Chance(30) {
+			b.arr(m)
+			b.wait(g.Pick(steps))
+		}
+		for i := range b.sc.kinds {
+			if g.Chance(90) {
+				b.callb(i, small())
+			}
+		}
+		for n := 1 + g.Intn(5); n > 0; n-- {
+			b.wait(g.Pick(steps))
+			switch g.Intn(6) {
+			case 0, 1:
+				b.callb(g.Intn(len(b.sc.kinds)), small())
+			case 2:
+				b.arr()
+			case 3:
+				b.arr(m, m)
+			default:
+				b.arr(m)
+			}
+		}
+		return b.done()
 	case f < 25:
 		// one caller, a sequence of deadline operations before and while it is blocked
 		k := "rwa"[g.Intn(3)]
